@@ -50,6 +50,11 @@ def find_visitors(ctx):
 
 def run(ctx, rep):
     ix, T = ctx.ix, ctx.typer
+    from .common import check_fast_paths
+    _fp_mods = ["jaqalpaq.core.algorithm.expand_macros"]
+    check_fast_paths(ctx, rep, "C04.7", [f for f in ix.functions.values() if f.module in _fp_mods and (f.cls is None or T.is_visitor(f.cls))], None)
+    from .common import check_falsy_zero
+    check_falsy_zero(ctx, rep, "C04.6", ['jaqalpaq.core.algorithm.expand_macros', 'jaqalpaq.core.gatedef', 'jaqalpaq.core.gate', 'jaqalpaq.core.macro', 'jaqalpaq.core.parameter'], floor_positions=5)
     expander, replacer = find_visitors(ctx)
     rep.analysed["visitors"] = [expander, replacer]
     rep.assume("visitor convention: the first parameter of visit_<K> has static type K (Visitor._resolve_method_name)")
@@ -124,6 +129,10 @@ def run(ctx, rep):
 
     for tr in (tr_e, tr_r):
         check_changed_flag(ctx, rep, "C04.2", tr)
+    # macros defined through the builder API reach expand_macros only after their inner macro calls are re-linked
+    relinker = "jaqalpaq.core.circuitbuilder.RebuildMacroInContextVisitor"
+    if relinker in ix.classes:
+        check_changed_flag(ctx, rep, "C04.2", visitor_transformer(ctx, relinker))
 
     # ------------------------------------------------------------ C04.3 / C04.4
     rep.rule("C04.3", "an argument-count comparison guarding a raise dominates the construction of the replacer", floor=1)
